@@ -1,5 +1,6 @@
 //! sm9verif: property-based testing / fuzzing machinery for John-Yu/SM9_core (see /verif/DESIGN.md).
 pub mod conv;
+pub mod fuzzglue;
 pub mod gen;
 pub mod grp;
 pub mod props;
